@@ -3,6 +3,11 @@ pub(crate) const R: usize = 4;
 #[cfg(not(any(test, miri)))]
 const R: usize = 8;
 
+#[cfg(feature = "verif-hooks")]
+mod verif;
+#[cfg(feature = "verif-hooks")]
+pub(crate) use self::verif::VERIF_R;
+
 use core::iter::FusedIterator;
 use core::mem;
 use hashbrown::{raw, TryReserveError};
